@@ -40,6 +40,28 @@ CLAIMS = {
              "sample. That the computed step equals the scheme's map is C02's clause."),
 }
 
+CLAIMS["C02"] = dict(
+    category="other", design="DESIGN.md 4/C02",
+    technique="AST rules: table-subscript layout classification, polynomial normal forms of stage formulas against templates, "
+              "truth tables, typestate abstract interpretation of the retry loop over the structured control flow",
+    text="Decides the structural clause of C02, not the numbers: every reader of a coefficient table uses the [c | A] / [. | b] layout "
+         "the tables are written in; the stage time/state arguments of compute_step, algebraic_system and the high-precision Jacobian "
+         "branch equal t0 + h c_i and y0 + h sum_j a_ij k_j as polynomial normal forms; the propagated increment is h sum b_i k_i of the "
+         "solved stages (FSAL shortcut only for explicit FSAL tables); the stored Newton flag implies solver success AND residual < tol; "
+         "and on every path of RungeKuttaIntegrator.__call__ (all abstract states, fixpoint over the retry loop, exceptional edges) no "
+         "return is reachable for an implicit method whose last stage solve failed. Each is a necessary condition: breaking it changes the "
+         "computed map. Equality 'to rounding / to solver tolerance' of returned values is not decided.")
+CLAIMS["C17"] = dict(
+    category="proof", design="DESIGN.md 4/C17",
+    technique="polynomial normal forms (Hermite end conditions, derivative identity); abstract interpretation of the bisection body over order types",
+    text="Hermite: the value expression of CubicHermiteInterp is normalised to a polynomial in tau and shown to be the unique cubic with "
+         "H(0)=p0, H(1)=p1, H'(0)=trange*m0, H'(1)=trange*m1 (so every cubic is reproduced, for either interval orientation), grad is shown "
+         "identical to d/dt of that polynomial, the early-return shortcuts equal the polynomial at tau=0,1, and the constructor slots are "
+         "bound positionally. Bisection: search_bisection is comparison-only, so its behaviour depends only on the order type of the query "
+         "relative to the array; its body is interpreted over ALL order types for array lengths 1..8 (quick) / 1..24 (thorough) against "
+         "the specification min(first index with element >= query, n-1). The vector variant is not decided (numpy semantics are not "
+         "modelled); rounding is not modelled.")
+
 PENDING = {}   # property -> reason it is not (yet) claimed
 
 
